@@ -92,9 +92,15 @@ Baseline(f) == CASE f = "target" -> "host"
   [] f = "tWeight" -> "ok"
   [] f = "whole" -> "ok"
 
-States(f)    == {p[1] : p \in Tab(f)}
-Class(f, st) == (CHOOSE p \in Tab(f) : p[1] = st)[2]
-FieldSet(k)  == {Fields(k)[i] : i \in 1..Len(Fields(k))}
+\* (the same tables as functions, so that TLC evaluates the CASEs once)
+AllKinds     == {"sdc", "gslb", "ctable", "file"}
+FieldSetMap  == [k \in AllKinds |-> {Fields(k)[i] : i \in 1..Len(Fields(k))}]
+FieldSet(k)  == FieldSetMap[k]
+AllFields    == UNION {FieldSetMap[k] : k \in AllKinds}
+StatesMap    == [f \in AllFields |-> {p[1] : p \in Tab(f)}]
+States(f)    == StatesMap[f]
+ClassMap     == [f \in AllFields |-> [st \in StatesMap[f] |-> (CHOOSE p \in Tab(f) : p[1] = st)[2]]]
+Class(f, st) == ClassMap[f][st]
 
 \* a field below a container only exists when the container is there
 Needs(f) == CASE f \in {"rCond", "rAdvCluster"}                       -> <<"rProductRule", "ok">>
@@ -102,8 +108,10 @@ Needs(f) == CASE f \in {"rCond", "rAdvCluster"}                       -> <<"rPro
               [] f \in {"cProtocol", "cSchem", "cHashStrategy", "cBalanceMode", "cTimeout"} -> <<"cConfig", "ok">>
               [] f \in {"tAddr", "tName", "tPort", "tWeight"}         -> <<"tConfig", "ok">>
               [] OTHER -> <<"", "">>
+BaseMap      == [f \in AllFields |-> Baseline(f)]
+NeedsMap     == [f \in AllFields |-> Needs(f)]
 Realisable(k, s) == \A f \in FieldSet(k) :
-    (s[f] # Baseline(f) /\ Needs(f)[1] # "") => s[Needs(f)[1]] = Needs(f)[2]
+    (s[f] # BaseMap[f] /\ NeedsMap[f][1] # "") => s[NeedsMap[f][1]] = NeedsMap[f][2]
 
 \* "一条基础规则的host条件和path条件，需要至少有一个不为空值"
 Blank == {"absent", "null", "emptylist"}
@@ -115,13 +123,18 @@ PVerdict(k, s) ==
   ELSE "gray"
 
 \* shapes with at most n fields off the baseline
-BaseShape(k) == [f \in FieldSet(k) |-> Baseline(f)]
+BaseShape(k) == [f \in FieldSet(k) |-> BaseMap[f]]
 RECURSIVE ShapesUpTo(_, _)
 ShapesUpTo(k, n) ==
   IF n = 0 THEN {BaseShape(k)}
   ELSE LET prev == ShapesUpTo(k, n - 1)
        IN prev \cup UNION {UNION {{[s EXCEPT ![f] = st] : st \in States(f)} : f \in FieldSet(k)} : s \in prev}
 Shapes(k, n) == {s \in ShapesUpTo(k, n) : Realisable(k, s)}
+
+\* one more field off the baseline
+Devs(k, s) == {f \in FieldSet(k) : s[f] # BaseMap[f]}
+Extend(k, s) == {sh \in UNION {{[s EXCEPT ![f] = st] : st \in States(f) \ {BaseMap[f]}}
+                               : f \in FieldSet(k) \ Devs(k, s)} : Realisable(k, sh)}
 
 (* the documents' own examples are the baseline shapes (and cConfig = "docexample"):   *)
 (* they must come out as "accept"                                                      *)
